@@ -22,8 +22,8 @@ from xh.taxo import fork_int, NoTracing
 
 P = json.loads(os.environ.get('XH_PARAMS', '{}') or '{}')
 POOL = [KmerSpec(11, 'ATGAC'), KmerSpec(11, 'ATGAT'), KmerSpec(9, 'ATGAC'), KmerSpec(9, 'AT')]      # differ in prefix, in k, in both
-KPOOL = [None, 11, 9]
-PPOOL = [None, 'ATGAC', 'ATGAT', 'AT']
+KPOOL = [None, 11, 9, 0]                     # 0 and '' are explicit values too (and can never match anything)
+PPOOL = [None, 'ATGAC', 'ATGAT', 'AT', '']
 
 
 class FakeSigs:
@@ -162,6 +162,8 @@ def _explicit(ki, pi):
         return None, False
     if k is None or p is None:
         return None, True            # incomplete: must be rejected
+    if k == 0 or p == '':
+        return None, True            # explicit but unusable, and different from every pre-computed source: must be rejected
     return KmerSpec(k, p), False
 
 
@@ -211,14 +213,14 @@ def _dist_concrete(qsrc, rsrc, qspec_i, rspec_i, db_i, ki, pi):
 
 
 def _dist_run(qsrc, rsrc, qspec_i, rspec_i, db_i, ki, pi):
-    args = [fork_int(qsrc, 0, 2), fork_int(rsrc, 0, 4), fork_int(qspec_i, 0, 3), fork_int(rspec_i, 0, 3), fork_int(db_i, 0, 3), fork_int(ki, 0, 2), fork_int(pi, 0, 3)]
+    args = [fork_int(qsrc, 0, 2), fork_int(rsrc, 0, 4), fork_int(qspec_i, 0, 3), fork_int(rspec_i, 0, 3), fork_int(db_i, 0, 3), fork_int(ki, 0, 3), fork_int(pi, 0, 4)]
     with NoTracing():
         return _dist_concrete(*args)
 
 
 def _c14_dist(qsrc: int, rsrc: int, qspec_i: int, rspec_i: int, db_i: int, ki: int, pi: int) -> bool:
     """
-    pre: 0 <= qsrc <= 2 and 0 <= rsrc <= 4 and 0 <= qspec_i <= 3 and 0 <= rspec_i <= 3 and 0 <= db_i <= 3 and 0 <= ki <= 2 and 0 <= pi <= 3
+    pre: 0 <= qsrc <= 2 and 0 <= rsrc <= 4 and 0 <= qspec_i <= 3 and 0 <= rspec_i <= 3 and 0 <= db_i <= 3 and 0 <= ki <= 3 and 0 <= pi <= 4
     pre: (qsrc == 2 or qspec_i == 0) and (rsrc == 2 or rspec_i == 0) and (rsrc == 3 or db_i == 0)
     post: _
     """
@@ -305,14 +307,14 @@ def _create_concrete(src, db_i, ki, pi, db_params):
 
 
 def _create_run(src, db_i, ki, pi, db_params):
-    args = [fork_int(src, 0, 1), fork_int(db_i, 0, 3), fork_int(ki, 0, 2), fork_int(pi, 0, 3)]
+    args = [fork_int(src, 0, 1), fork_int(db_i, 0, 3), fork_int(ki, 0, 3), fork_int(pi, 0, 4)]
     with NoTracing():
         return _create_concrete(*args, bool(db_params))
 
 
 def _c14_create(src: int, db_i: int, ki: int, pi: int, db_params: bool) -> bool:
     """
-    pre: 0 <= src <= 1 and 0 <= db_i <= 3 and 0 <= ki <= 2 and 0 <= pi <= 3
+    pre: 0 <= src <= 1 and 0 <= db_i <= 3 and 0 <= ki <= 3 and 0 <= pi <= 4
     post: _
     """
     return _create_run(src, db_i, ki, pi, db_params)[0]
@@ -351,14 +353,14 @@ def _tree_concrete(src, sig_i, ki, pi):
 
 
 def _tree_run(src, sig_i, ki, pi):
-    args = [fork_int(src, 0, 2), fork_int(sig_i, 0, 3), fork_int(ki, 0, 2), fork_int(pi, 0, 3)]
+    args = [fork_int(src, 0, 2), fork_int(sig_i, 0, 3), fork_int(ki, 0, 3), fork_int(pi, 0, 4)]
     with NoTracing():
         return _tree_concrete(*args)
 
 
 def _c14_tree(src: int, sig_i: int, ki: int, pi: int) -> bool:
     """
-    pre: 0 <= src <= 2 and 0 <= sig_i <= 3 and 0 <= ki <= 2 and 0 <= pi <= 3
+    pre: 0 <= src <= 2 and 0 <= sig_i <= 3 and 0 <= ki <= 3 and 0 <= pi <= 4 and (src != 2 or (ki <= 2 and pi <= 3))
     post: _
     """
     return _tree_run(src, sig_i, ki, pi)[0]
